@@ -84,7 +84,14 @@ def enc_val(v):
 
 
 def py_val(v):
-    return v["s"] if "s" in v else np.array(v["a"], dtype=int)
+    """the assigned value as the caller passes it: a Python int, or a numpy array / Python list / tuple of ints"""
+    if "s" in v:
+        return v["s"]
+    if v.get("as") == "list":
+        return [int(x) for x in v["a"]]
+    if v.get("as") == "tuple":
+        return tuple(int(x) for x in v["a"])
+    return np.array(v["a"], dtype=int)
 
 
 def enc_gkey(k):
@@ -684,8 +691,9 @@ def gen_ops(rng, c, length):
                 val = {"s": int(pool[rng.integers(len(pool))])}
                 st = "assign-phase-id/scalar" + ("/-1" if val["s"] == -1 else "")
             elif kind < 8:
-                val = {"a": [int(pool[rng.integers(len(pool))]) for _ in range(size)]}
-                st = "assign-phase-id/array" + ("/with-1" if -1 in val["a"] else "")
+                val = {"a": [int(pool[rng.integers(len(pool))]) for _ in range(size)],
+                       "as": ["array", "list", "tuple", "array"][int(rng.integers(4))]}
+                st = "assign-phase-id/" + val["as"] + ("/with-1" if -1 in val["a"] else "")
             elif kind == 8:
                 val = {"a": [int(pool[rng.integers(len(pool))]) for _ in range(size + 2)]}
                 st = "assign-phase-id/array-wrong-length"
@@ -701,7 +709,7 @@ def gen_ops(rng, c, length):
             if kind < 2:
                 val = {"s": int(rng.integers(-9, 10))}
             elif kind < 4:
-                val = {"a": [int(x) for x in rng.integers(-9, 10, size)]}
+                val = {"a": [int(x) for x in rng.integers(-9, 10, size)], "as": ["array", "list", "array"][int(rng.integers(3))]}
             else:
                 val = {"a": [int(x) for x in rng.integers(-9, 10, size + 1)]}
             st = "assign-prop/" + ("scalar" if "s" in val else "array" if kind < 4 else "array-wrong-length") + \
